@@ -133,6 +133,89 @@ func checkLockLeaks(w *World, r *Report, la *lockAnalysis, rule string) {
 		}
 	}
 	r.floor("functions that take a lock", n, 3)
+
+	// re-entrance: sync.Mutex / sync.RWMutex are not re-entrant.  Acquiring a lock that the
+	// goroutine already holds (Lock or RLock under Lock/RLock of the same mutex: a pending
+	// writer also blocks new readers) never returns, and every later user of the lock blocks
+	// behind it.  mayAcquire: the locks a function can take, itself or through package callees.
+	g := w.callgraph()
+	mayAcquire := map[*ssa.Function]map[lockKey]string{}
+	for _, fn := range w.pkgFuncs() {
+		m := map[lockKey]string{}
+		instrsOf(fn, func(in ssa.Instruction) {
+			if k, acq, _, ok := la.lockOp(in); ok && acq {
+				if _, seen := m[k]; !seen {
+					m[k] = ssaName(fn) + " (" + w.posOf(in.Pos()) + ")"
+				}
+			}
+		})
+		mayAcquire[fn] = m
+	}
+	for changed := true; changed; {
+		changed = false
+		for _, fn := range w.pkgFuncs() {
+			node := g.Nodes[fn]
+			if node == nil {
+				continue
+			}
+			for _, e := range node.Out {
+				if _, isGo := e.Site.(*ssa.Go); isGo {
+					continue
+				}
+				for k, where := range mayAcquire[e.Callee.Func] {
+					if _, seen := mayAcquire[fn][k]; !seen {
+						mayAcquire[fn][k] = where
+						changed = true
+					}
+				}
+			}
+		}
+	}
+	nRe := 0
+	for _, fn := range w.pkgFuncs() {
+		instrsOf(fn, func(in ssa.Instruction) {
+			held := la.at(in)
+			if len(held) == 0 {
+				return
+			}
+			if k, acq, _, ok := la.lockOp(in); ok {
+				if acq && held[k] {
+					nRe++
+					r.bad(rule, ssaName(fn), "lock "+string(k)+" is not acquired while it is held", w.posOf(in.Pos()), "the mutex is locked again by the goroutine that already holds it (sync mutexes are not re-entrant): the call never returns and every later use of the lock blocks behind it")
+				}
+				return
+			}
+			c, ok := in.(ssa.CallInstruction)
+			if !ok {
+				return
+			}
+			if _, isGo := in.(*ssa.Go); isGo {
+				return
+			}
+			if _, isDefer := in.(*ssa.Defer); isDefer {
+				return
+			}
+			node := g.Nodes[fn]
+			if node == nil {
+				return
+			}
+			for _, e := range node.Out {
+				if e.Site != c || !w.inPkg(e.Callee.Func) {
+					continue
+				}
+				for k := range held {
+					if where, can := mayAcquire[e.Callee.Func][k]; can {
+						nRe++
+						r.bad(rule, ssaName(fn), "lock "+string(k)+" is not acquired while it is held", w.posOf(in.Pos()), "the call to "+ssaName(e.Callee.Func)+" is made while "+string(k)+" is held and can lock it again in "+where+" (sync mutexes are not re-entrant): on that path the call never returns, and every later use of the lock blocks behind it")
+						return
+					}
+				}
+			}
+		})
+	}
+	if nRe == 0 {
+		r.ok(rule, "(package)", "no lock is acquired while it is held", "-", "no call made inside a lock region can reach an acquisition of the same mutex", true)
+	}
 }
 
 // ---------------------------------------------------------------- R05.4a
